@@ -15,6 +15,8 @@ import (
 	"runtime"
 	"strings"
 	"sync"
+	"sync/atomic"
+	"time"
 
 	"verifharness/hx"
 )
@@ -159,6 +161,42 @@ func runOps(sub uint64, ops []string) *caseResult {
 	return res
 }
 
+// runCaseGuarded runs one case under a watchdog: a case that does not return (a deadlock of the code under test inside
+// a call that has no guard of its own, e.g. Trigger while a consumer unhooks) becomes a `hang` finding with the case's op
+// lines (answer `hang`), its goroutine is left behind, and the run goes on.  The first limit is generous (a loaded machine
+// is not a hang); once a case has hung, the following ones get less.
+var caseHangs atomic.Int32
+
+func runCaseGuarded(sub uint64, ops []string) *caseResult {
+	ch := make(chan *caseResult, 1)
+	go func() { ch <- runOps(sub, ops) }()
+	limit := 300 * time.Second
+	if n := caseHangs.Load(); n > 10 {
+		limit = 2 * time.Second
+	} else if n > 0 {
+		limit = 20 * time.Second
+	}
+	select {
+	case r := <-ch:
+		return r
+	case <-time.After(limit):
+	}
+	caseHangs.Add(1)
+	res := &caseResult{sub: sub, nontrivial: true}
+	section := "?"
+	for _, op := range ops {
+		if f := strings.Fields(op); len(f) > 0 && section == "?" {
+			section = f[0]
+		}
+		res.ops = append(res.ops, op)
+		res.ans = append(res.ans, "hang")
+	}
+	res.fails = append(res.fails, fail{"hang", fmt.Sprintf("the case did not finish within %s (a call into the code under test never returned)", limit),
+		map[string]string{"oracle": "hang", "section": section, "mode": "case-watchdog"}})
+
+	return res
+}
+
 // ansKind canonicalises an answer for the histogram (handles and payloads dropped).
 func ansKind(a string) string {
 	k := strings.Fields(a)[0]
@@ -227,7 +265,7 @@ func runAll(r *hx.Run, subs []uint64, cases [][]string, par int) {
 			defer wg.Done()
 			defer func() { <-sem }()
 			journalWrite("S", base+i)
-			results[i] = runOps(subs[i], cases[i])
+			results[i] = runCaseGuarded(subs[i], cases[i])
 			journalWrite("E", base+i)
 		}(i)
 	}
@@ -298,6 +336,8 @@ func main() {
 	gen(1200*r.Scale, func(rng *hx.Rng) []string { return genVN(rng, 4+rng.Intn(24)) })
 	gen(1000*r.Scale, func(rng *hx.Rng) []string { return genPR(rng, 3+rng.Intn(14)) })
 	gen(700*r.Scale, func(rng *hx.Rng) []string { return genP0(rng, 3+rng.Intn(14)) })
+	gen(6*r.Scale, func(rng *hx.Rng) []string { return genPRLong(rng, "pr") })
+	gen(6*r.Scale, func(rng *hx.Rng) []string { return genPRLong(rng, "p0") })
 	gen(2500*r.Scale, func(rng *hx.Rng) []string { return genEV(rng, 6+rng.Intn(30)) })
 	gen(1500*r.Scale, genIT)
 	gen(150*r.Scale, genMN)
